@@ -191,6 +191,44 @@ DoAddSub(H, c, s, f, rootLink) ==
 \* explicit copy of a circuit: a new top-level circuit
 DoCopyCirc(H, s, f) == Extend(H, CopyRecords(H, s, f, None, H[s].link))
 
+\* ----------------------------------------------------------------- masking
+\* replace_operation(circuit, masks) of circuit_modifiers.py rebuilds a (flat) circuit operation by operation: each
+\* operation is copied with its relation re-pointed to the copy of what it referred to, the masks are tried in order and a
+\* matching one swaps the copy for a placeholder of the same duration (on channel ALL of the same qubits), then the copy is
+\* added to the new circuit by the ordinary rule.  No listed property speaks about masking; clauses derived from this
+\* section carry the prefix E05 and are advisory.
+\* mask records: [t |-> "op", kind, q] one kind on one qubit; [t |-> "chan", chan, q] whatever occupies that channel of q;
+\*               [t |-> "two", q, q2, chan] two-qubit operations on q (and q2 unless -1) -- all with the same fields
+MaskRec(t, kind, q, q2, chan) == [t |-> t, kind |-> kind, q |-> q, q2 |-> q2, chan |-> chan]
+SingleKinds == {"Reset", "Wait", "Identity", "Hadamard", "Rx180", "Rx90", "Rxm90", "Ry180", "Ry90", "Rym90", "Rx180ef", "VirtualPhase",
+                "VirtualPark", "Rphi90", "VirtualVacant", "VirtualEmpty", "DetectorOperation", "LogicalObservableOperation", "SingleQubitOperation"}
+TwoKinds    == {"CPhase", "TwoQubitVirtualPhase", "VirtualTwoQubitVacant", "TwoQubitOperation"}
+MaskMatches(mk, o) ==
+  CASE mk.t = "op"   -> o.kind = mk.kind /\ Len(o.qs) = 1 /\ o.qs[1] = mk.q
+    [] mk.t = "chan" -> /\ (o.kind \in SingleKinds \/ o.kind = "DispersiveMeasure") /\ o.kind \notin {"VirtualVacant", "VirtualEmpty"}
+                        /\ <<mk.q, mk.chan>> \in Range(o.chans) /\ \A ch \in Range(o.chans) : ch[2] # "ALL"
+    [] mk.t = "two"  -> /\ o.kind \in TwoKinds /\ o.kind # "VirtualTwoQubitVacant"
+                        /\ <<mk.q, mk.chan>> \in Range(o.chans) /\ (mk.q2 >= 0 => <<mk.q2, mk.chan>> \in Range(o.chans))
+    [] OTHER -> FALSE
+MaskKind(mk, o) ==
+  CASE mk.t = "two" -> "VirtualTwoQubitVacant"
+    [] mk.t = "chan" /\ o.kind \in {"VirtualPark", "Wait"} -> "VirtualEmpty"
+    [] OTHER -> "VirtualVacant"
+Placeholder(mk, o) == [o EXCEPT !.kind = MaskKind(mk, o), !.chans = [j \in 1..Len(o.qs) |-> <<o.qs[j], "ALL">>], !.tag = "", !.extra = <<>>]
+MaskFold(masks, o) ==
+  LET F[k \in 0..Len(masks)] == IF k = 0 THEN o ELSE IF MaskMatches(masks[k], F[k-1]) THEN Placeholder(masks[k], F[k-1]) ELSE F[k-1]
+  IN F[Len(masks)]
+IsFlat(H, c) == \A k \in Range(H[c].kids) : H[k].t = "op"
+\* the rebuilt circuit `new`; f renames the operations of c; pick(k, allowed) selects the relation of the k-th operation among
+\* those the adding rule allows (the generator takes any, the trace specification the reported one if it is allowed)
+DoMask(H, c, Ls, new, f, masks, pick(_, _)) ==          \* Ls: the operations of c in the order they are rebuilt (a listing of c)
+  LET F[k \in 0..Len(Ls)] ==
+        IF k = 0 THEN DoNewCircuit(H, new, NoLink, <<"fixed", 1>>)
+        ELSE LET o == Ls[k]  rec == MaskFold(masks, H[o])
+                 allowed == AllowedLinks(F[k-1], new, Range(rec.chans), MapLink(H[o].link, f))
+             IN DoAddOp(F[k-1], new, f[o], rec, pick(k, allowed))
+  IN F[Len(Ls)]
+
 \* --------------------------------------------------------------- unrolling
 \* ApplyModifiers: a block with count n becomes n copies of its content chained one after another.
 \* `fresh` is an infinite supply: fresh[k] is the k-th new identifier.  Returns [h |-> heap, n |-> identifiers used].
